@@ -436,77 +436,77 @@ def c19_slices(tier):
 C19_FATAL = {"batch:ok", "batch:singles", "batch:plains", "single_sign:ok", "*:rng_unused", "*:rng_overrun", "*:panic"}
 
 PROPS = {
-    "C01": dict(slices=c01_slices, fatal=C01_FATAL, level="model_checking",
+    "C01": dict(slices=c01_slices, fatal=C01_FATAL, traces=True, level="model_checking",
                 rule="TLC enumerates every behaviour of the C01 schedule within each slice's constants; "
                      "each finished behaviour is one script replayed on the real library under the toy "
                      "ciphersuite with TLC's random draws and oracle answers; non-trivial = distinct behaviour",
                 assumptions=["TLC 1.8.0 and the CommunityModules", "the toy ciphersuite and interpreter in /verif/harness",
                              "the toy-to-real argument of DESIGN 6.2"]),
-    "C05": dict(slices=c05_slices, fatal=C05_FATAL, level="model_checking",
+    "C05": dict(slices=c05_slices, fatal=C05_FATAL, traces=True, level="model_checking",
                 rule="two concurrent sessions over one key; TLC enumerates every probe (cross-session share, every "
                      "A/B slot filling, every single-field substitution of the package, own-entry faults, identity "
                      "commitments) and each behaviour is replayed on the real library with exact oracle preimages",
                 assumptions=["TLC 1.8.0 and the CommunityModules", "the toy ciphersuite and interpreter in /verif/harness",
                              "the toy-to-real argument of DESIGN 6.2"]),
-    "C03": dict(slices=c03_slices, fatal=C03_FATAL, stages=[c03_secrecy], level="model_checking",
+    "C03": dict(slices=c03_slices, fatal=C03_FATAL, traces=True, stages=[c03_secrecy], level="model_checking",
                 rule="every coalition of 1..t-1 holders, honest and lowered min_signers fields, all keys and "
                      "polynomials in the value slice; plus the perfect-secrecy counting ASSUME decided by TLC; "
                      "each behaviour replayed on the real library",
                 assumptions=["TLC 1.8.0 and the CommunityModules", "the toy ciphersuite and interpreter in /verif/harness",
                              "the toy-to-real argument of DESIGN 6.2"]),
-    "C06": dict(slices=c06_slices, fatal=C06_FATAL, level="model_checking",
+    "C06": dict(slices=c06_slices, fatal=C06_FATAL, traces=True, level="model_checking",
                 rule="every (n,t) incl. invalid, identifier lists incl. wrong count and duplicates, every key and "
                      "polynomial in the value slice, every single-coordinate tampering with every wrong value, "
                      "every reconstruct subset; each behaviour replayed on the real library",
                 assumptions=["TLC 1.8.0 and the CommunityModules", "the toy ciphersuite and interpreter in /verif/harness",
                              "the toy-to-real argument of DESIGN 6.2"]),
-    "C07": dict(slices=c07_slices, fatal=C07_FATAL, level="model_checking",
+    "C07": dict(slices=c07_slices, fatal=C07_FATAL, traces=True, level="model_checking",
                 rule="honest three-part DKG for every shape, identifier set and per-participant polynomial within the "
                      "slice constants, followed by a signing session of any >= t participants; replayed on the real library",
                 assumptions=["TLC 1.8.0 and the CommunityModules", "the toy ciphersuite and interpreter in /verif/harness",
                              "the toy-to-real argument of DESIGN 6.2"]),
-    "C08": dict(slices=c08_slices, fatal=C08_FATAL, level="model_checking",
+    "C08": dict(slices=c08_slices, fatal=C08_FATAL, traces=True, level="model_checking",
                 rule="exactly one faulty contribution per behaviour: every (receiver, sender) pair x 15 fault kinds x "
                      "every field and coefficient x every wrong value in the slice; replayed on the real part2/part3",
                 assumptions=["TLC 1.8.0 and the CommunityModules", "the toy ciphersuite and interpreter in /verif/harness",
                              "the toy-to-real argument of DESIGN 6.2"]),
-    "C09": dict(slices=c09_slices, fatal=C09_FATAL, level="model_checking",
+    "C09": dict(slices=c09_slices, fatal=C09_FATAL, traces=True, level="model_checking",
                 rule="two concurrent DKG runs; for every participant every assignment of {run A, run B, absent} to each "
                      "round-one slot at part2 and again at part3 and of {(run, addressee)} or absent to each round-two "
                      "slot is enumerated by TLC and executed on the real part2/part3",
                 assumptions=["TLC 1.8.0 and the CommunityModules", "the toy ciphersuite and interpreter in /verif/harness",
                              "the toy-to-real argument of DESIGN 6.2"]),
-    "C10": dict(slices=c10_slices, fatal=C10_FATAL, level="model_checking",
+    "C10": dict(slices=c10_slices, fatal=C10_FATAL, traces=True, level="model_checking",
                 rule="dealer keys, then one or two refreshes (trusted dealer / distributed) of every remaining set, then a "
                      "signing attempt with every assignment of stale/fresh shares; rejected-refresh scenarios; replayed on the real library",
                 assumptions=["TLC 1.8.0 and the CommunityModules", "the toy ciphersuite and interpreter in /verif/harness",
                              "the toy-to-real argument of DESIGN 6.2"]),
-    "C11": dict(slices=c11_slices, fatal=C11_FATAL, level="model_checking",
+    "C11": dict(slices=c11_slices, fatal=C11_FATAL, traces=True, level="model_checking",
                 rule="every helper set with t <= |H|, every repaired identifier (existing outside H, or new), all keys and "
                      "polynomials in the value slice, every blinding value in slice B; refused helper lists; replayed on the real library",
                 assumptions=["TLC 1.8.0 and the CommunityModules", "the toy ciphersuite and interpreter in /verif/harness",
                              "the toy-to-real argument of DESIGN 6.2"]),
-    "C15": dict(slices=c15_slices, fatal=C15_FATAL, level="model_checking",
+    "C15": dict(slices=c15_slices, fatal=C15_FATAL, traces=True, level="model_checking",
                 rule="sequences of commit/preprocess calls under constant, repeating and varying scripted sources; every share "
                      "and every H3 answer in the value slice; the replay requires the exact RNG consumption and H3 preimages",
                 assumptions=["TLC 1.8.0 and the CommunityModules", "the toy ciphersuite and interpreter in /verif/harness",
                              "the toy-to-real argument of DESIGN 6.2"]),
-    "C16": dict(slices=c16_slices, fatal=C16_FATAL, level="model_checking",
+    "C16": dict(slices=c16_slices, fatal=C16_FATAL, traces=True, level="model_checking",
                 rule="one randomised entry point per behaviour with the prescribed draw sequence incl. rejected zero draws; "
                      "replayed with scripted draws: every secret value must equal its own draw and the source be consumed exactly",
                 assumptions=["TLC 1.8.0 and the CommunityModules", "the toy ciphersuite and interpreter in /verif/harness",
                              "the toy-to-real argument of DESIGN 6.2"]),
-    "C17": dict(slices=c17_slices, fatal=C17_FATAL, level="model_checking",
+    "C17": dict(slices=c17_slices, fatal=C17_FATAL, traces=True, level="model_checking",
                 rule="re-randomized sessions for every seed / explicit randomizer (zero included) in the slice, honest and with one "
                      "participant given another seed, another commitment set, or an altered share; three detection modes",
                 assumptions=["TLC 1.8.0 and the CommunityModules", "the toy ciphersuite and interpreter in /verif/harness",
                              "the toy-to-real argument of DESIGN 6.2"]),
-    "C19": dict(slices=c19_slices, fatal=C19_FATAL, level="model_checking",
+    "C19": dict(slices=c19_slices, fatal=C19_FATAL, traces=True, level="model_checking",
                 rule="every batch of up to MaxItems items x every position and kind of invalid item x every blinder vector; TLC also "
                      "counts, per batch, the accepting blinder vectors (exactly q^(n-1) when an item is invalid)",
                 assumptions=["TLC 1.8.0 and the CommunityModules", "the toy ciphersuite and interpreter in /verif/harness",
                              "the toy-to-real argument of DESIGN 6.2"]),
-    "C04": dict(slices=c04_slices, fatal=C04_FATAL, level="model_checking",
+    "C04": dict(slices=c04_slices, fatal=C04_FATAL, level="model_checking", traces=True,
                 rule="TLC enumerates every filling of the share slots (honest / off by d / negated / zero / another "
                      "signer's / another session's share) for every signer subset within the slice constants and runs "
                      "the three detection modes; each behaviour is replayed on the real library; non-trivial = distinct behaviour",
